@@ -265,14 +265,34 @@ def carries (code : Nat) (msg : Bytes) (ds : List ErrorDetail) (bytes : Bytes) :
      | none => false
      | some ds' => sameDetails ds ds')
 
+def allKinds : List Kind :=
+  [.retryInfo, .debugInfo, .quotaFailure, .errorInfo, .preconditionFailure, .badRequest,
+   .requestInfo, .resourceInfo, .help, .localizedMessage]
+
+/-- first detail of a kind in a list (what the `get_details_*` getters promise) -/
+def firstOfKind (k : Kind) (ds : List ErrorDetail) : Option ErrorDetail := ds.find? (fun d => d.kind == k)
+
+/-- the set form: as `carries`, but `ds` (at most one detail per kind) may sit on the wire in any order -/
+def carriesSet (code : Nat) (msg : Bytes) (ds : List ErrorDetail) (bytes : Bytes) : Bool :=
+  match status bytes with
+  | none => false
+  | some e =>
+    e.code == (code : Int) && e.message == msg && e.details.length == ds.length &&
+    (match standardDetails e.details with
+     | none => false
+     | some ds' =>
+       ds'.length == ds.length &&
+       allKinds.all fun k =>
+         match firstOfKind k ds, firstOfKind k ds' with
+         | none, none => true
+         | some a, some b => sameDetail a b
+         | _, _ => false)
+
 /-- the embedded status alone: code and message -/
 def embeds (code : Nat) (msg : Bytes) (bytes : Bytes) : Bool :=
   match status bytes with
   | none => false
   | some e => e.code == (code : Int) && e.message == msg
-
-/-- first detail of a kind in a list (what the `get_details_*` getters promise) -/
-def firstOfKind (k : Kind) (ds : List ErrorDetail) : Option ErrorDetail := ds.find? (fun d => d.kind == k)
 
 /-- last detail of a kind -/
 def lastOfKind (k : Kind) (ds : List ErrorDetail) : Option ErrorDetail := firstOfKind k ds.reverse
